@@ -174,10 +174,10 @@ class RemoteContext(SupportRemoteGetState):
                 '_target': self._target,
                 '_args': self._args,
                 '_kwargs': self._kwargs,
+                '_register_remote_child': self._children.append,
                 **self._extra_state
             }
-            child = recv_msg(cli, state_patches, comment='context: remote worker')
-            self._children.append(child)
+            recv_msg(cli, state_patches, comment='context: remote worker')
             return True
         except ConnectionClosedError:
             return False
